@@ -10,6 +10,7 @@ from . import lvs, monitors, refcodec as rc
 from .common import raising_site
 
 from ndn.app_support.light_versec import compile_lvs, Checker, SemanticError, LvsModelError
+from ndn.app_support.light_versec import binary as bny
 
 RULE = ('generated schemas with signing relations (chains over 3 levels, alternative signers, pattern names shared between '
         'packet and key rules, constraints on shared patterns, constraints referring to patterns bound by the packet) x all '
@@ -24,7 +25,7 @@ DIGEST = rc.comp(1, bytes(32))
 def run(ctx):
     ctx.rule = RULE
     rng = ctx.rng
-    nsch = ctx.n(120, 6000)
+    nsch = ctx.n(100, 6000)
     templates = []
     for _ in range(ctx.n(3, 12)):
         templates += lvs.template_schemas(rng, True)
@@ -56,6 +57,16 @@ def run(ctx):
             ctx.report(f'compile-raises:{type(e).__name__}@{raising_site(e)[0]}', f'{e!r}', w)
             continue
         ctx.event('schema')
+        # the tag-symbol table is optional in the binary format ("only needed if the checker needs the name identifiers"):
+        # the same model without it (or with part of it) must answer the signing check identically
+        nosym = None
+        try:
+            m2 = bny.LvsModel.parse(checker.save())
+            m2.symbols = [] if si % 2 == 0 else list(m2.symbols)[::2]
+            nosym = Checker.load(bytes(m2.encode()), lvs.USER_FNS)
+            ctx.event('model-without-symbol-table')
+        except Exception as e:   # noqa
+            ctx.report(f'symbol-less-model-raises:{type(e).__name__}@{raising_site(e)[0]}', f'loading the model without its optional symbol table raised {e!r}', w)
         alphabet = [lvs.lit(t) for t in ref.literals()] + FRESH
         L = min(ref.max_len(), 6)
         # candidate names: those matching some rule, plus near misses (one component changed / dropped / added)
@@ -114,7 +125,8 @@ def run(ctx):
                 variants.append((pkt, key + [DIGEST], 'key+digest'))
             for (p2, k2, vl) in variants:
                 wn = dict(w, pkt=rc.name_to_uri(p2, canonical=True), key=rc.name_to_uri(k2, canonical=True))
-                for label, ck in (('direct', checker),) + ((('loaded', loaded),) if pi % 5 == 0 else ()):
+                for label, ck in (('direct', checker),) + ((('loaded', loaded),) if pi % 5 == 0 else ()) + \
+                        ((('loaded-without-symbols', nosym),) if (pi % 5 == 1 and nosym is not None) else ()):
                     try:
                         if pi % 20 == 0:
                             with monitors.Steps(limit=budget):
@@ -145,6 +157,7 @@ def run(ctx):
             ctx.case((text, tuple(pkt), tuple(key)), nontrivial=any(r in signed_rules for r, b in ref.match(pkt)),
                      sample=dict(w, pkt=rc.name_to_uri(pkt, canonical=True), key=rc.name_to_uri(key, canonical=True), expected=exp) if exp and ctx.evaluations % 9000 == 1 else None)
     ctx.need_class('template-schema')
+    ctx.need_event('model-without-symbol-table')
     ctx.need_event('schema', 30)
     for k in ('schema', 'check-true', 'check-false'):
         ctx.need_event(k)
